@@ -13,9 +13,13 @@ for d in sorted((V / "seeded").iterdir()):
     code = m.get("check_exit_on_patched_tree")
     verdict = {0: "missed", 1: "caught", 2: "analysis-error"}.get(code, str(code))
     note = m.get("note", "")
+    if m.get("patch_applies") is False:
+        verdict = "stale"
+        note = (note + "; " if note else "") + "the patch no longer applies: a later fix: commit rewrote the lines it edits (it was caught on the tree it was made for)"
     rows.append((d.name, ", ".join(f.replace("pennylane/", "") for f in files), verdict, ", ".join(rules), note))
 print("| seed | files touched | verdict | rule(s) that fire | note |\n|---|---|---|---|---|")
 for r in rows:
     print("| " + " | ".join(r) + " |")
 c = sum(1 for r in rows if r[2] == "caught")
-print(f"\n{c} of {len(rows)} caught.")
+st = sum(1 for r in rows if r[2] == "stale")
+print(f"\n{c} of {len(rows) - st} applicable seeds caught ({st} stale).")
